@@ -666,6 +666,25 @@ Theorem c20_argv_supplier : forall pid items out, items_effect CLI [] items = So
 Proof. exact argv_supplier. Qed.
 Print Assumptions c20_argv_supplier.
 
+(* ... and from the TOKEN VECTOR itself: Cli::parse() on the rendered command line yields the record that supplier is built from *)
+Theorem c20_tokens_to_supplier : forall pid items out, items_effect CLI [] items = Some out ->
+  (group_members_present GROUP out <= 1)%nat -> required_present CLI out = true ->
+  exists acc, parse CLI GROUP (render items) = PParsed acc /\
+    supplier_of (sym_cli_of pid acc) =
+      match map pid (opt_values "symbols-url"%str items) with
+      | _ :: _ =>
+          HttpSupplier (map pid (opt_values "symbols-path"%str items) ++ map pid (tl (words items)))%list
+            (map pid (opt_values "symbols-url"%str items))
+            (match first_value "symbols-cache"%str items with Some d => GivenDir (pid d) | None => TempDirCache end)
+            (match first_value "symbols-tmp"%str items with Some d => GivenDir (pid d) | None => TempDir end)
+            (match first_value "symbols-download-timeout-secs"%str items with Some s => secs_of s | None => 1000%Z end)
+      | [] => match (map pid (opt_values "symbols-path"%str items) ++ map pid (tl (words items)))%list with
+              | _ :: _ => SimpleSupplier (map pid (opt_values "symbols-path"%str items) ++ map pid (tl (words items)))%list
+              | [] => NoSupplier end
+      end.
+Proof. exact tokens_to_supplier. Qed.
+Print Assumptions c20_tokens_to_supplier.
+
 (* ---- the --dump mode (print_minidump_dump, main.rs) as a program regenerated from the source (Gen/C20DumpProg.v) and
    interpreted by C20/DumpModel.v; a minidump is seen through what get_stream::<T>() / get_raw_stream answer per stream kind.
    The printers that run, in order, for EVERY such view: *)
